@@ -87,7 +87,7 @@ func buildMsg(sizes []uint64) *capnp.Message {
 	root, _ := capnp.NewRootStruct(seg, capnp.ObjectSize{PointerCount: uint16(len(sizes))})
 	for i, sz := range sizes {
 		st, _ := capnp.NewStruct(seg, capnp.ObjectSize{DataSize: capnp.Size(sz)})
-		root.SetPtr(i, st.ToPtr())
+		root.SetPtr(uint16(i), st.ToPtr())
 	}
 	b, _ := msg.Marshal()
 	m2, err := capnp.Unmarshal(b)
@@ -129,7 +129,7 @@ func runC(p cprog, res *cres) {
 		for oi, o := range p.threads[ti] {
 			switch o.kind {
 			case 'r':
-				q, err := root.Ptr(idx[[2]int{ti, oi}])
+				q, err := root.Ptr(uint16(idx[[2]int{ti, oi}]))
 				res.granted[ti][oi] = err == nil && q.IsValid()
 			case 'u':
 				msg.Unread(capnp.Size(o.sz))
